@@ -135,3 +135,23 @@ pub fn bytes_of_write_file(pkg: &rpm::Package, expected_len: usize) -> Result<Ve
     let _ = std::fs::remove_dir_all(&dir);
     r
 }
+
+
+/// A sink that takes `left` bytes and then fails every call.
+pub struct FailAfter {
+    pub left: usize,
+}
+
+impl std::io::Write for FailAfter {
+    fn write(&mut self, buf: &[u8]) -> std::io::Result<usize> {
+        if self.left == 0 {
+            return Err(std::io::Error::other("device full"));
+        }
+        let n = buf.len().min(self.left);
+        self.left -= n;
+        Ok(n)
+    }
+    fn flush(&mut self) -> std::io::Result<()> {
+        Ok(())
+    }
+}
